@@ -219,7 +219,9 @@ JudgeCliLines(e, ch) ==
 
 \* extended coverage (no listed property owns it): Display of the whole state
 JudgeStateText(e, pre) ==
-  IF Crashed(e) THEN Verdict("crash", "state_text", "EXT", <<>>, e.post.msg)
+  IF HasF(e.act, "fresh") /\ [pre EXCEPT !.nid = 1] # EmptyState
+  THEN Verdict("mismatch", "fresh_state", "EXT", <<>>, "PushState::new() is not the specification's EmptyState (stacks empty, default configuration)")
+  ELSE IF Crashed(e) THEN Verdict("crash", "state_text", "EXT", <<>>, e.post.msg)
   ELSE IF e.post # pre THEN Verdict("mismatch", "state_text", "EXT", <<>>, "rendering the state changed it")
   ELSE IF ~TextDecidable(pre) THEN Blank("ok", "state_text")
   ELSE IF StateTextOK(e.ret, pre, WS) THEN Blank("ok", "state_text")
